@@ -213,6 +213,8 @@ func c16Encoders(c *Ctx, src c16Source, viol func(api, clause, detail string)) [
 			return func() ([]byte, error) {
 				p := filepath.Join(c16Dir(), fmt.Sprintf("c16-%d-%s", os.Getpid(), name))
 				defer os.Remove(p)
+				// the target already exists and is longer than what will be written
+				os.WriteFile(p, bytes.Repeat([]byte("<old/>{\"old\":1}\n"), 200), 0o644)
 				if err := w(p); err != nil {
 					return nil, err
 				}
@@ -335,7 +337,10 @@ func c16Explore(c *Ctx, src c16Source, bound int, echoice bool) (nontrivial bool
 				viol(e.name, "error", err.Error())
 				return
 			}
-			c.Retain(e.name, out, func() interface{} { return src.cas() })
+			if first {
+				// kept across the following sources: a later call that overwrites these bytes is detected
+				c.Retain(e.name, out, func() interface{} { return src.cas() })
+			}
 			if first {
 				base[e.name] = append([]byte(nil), out...)
 				return
